@@ -37,7 +37,9 @@ RULE = ('random construction description: component tree 1-4 deep, slots holding
         'component or a nested list (1-3 dimensions, sometimes ragged, mixed, with empty sub-lists, with None holes: '
         'diagonal / triangle of a grid, whole rows, leading / middle / trailing positions), struct-typed '
         'signals with list fields and nested structs, 0-12 access expressions (field, list-field index, slice, int '
-        'index, slice of slice, slice of slice of slice) evaluated inside construct and after elaborate; '
+        'index, slice of slice, slice of slice of slice) evaluated inside construct and after elaborate; then 0-3 '
+        'top.add_value_port(parent, name, port) on components and interfaces at any depth (also in lists), some followed by '
+        'top.add_connection, and the whole property re-checked; '
         'non-trivial = has a list slot or a lazily created signal; distinct = distinct canonical description')
 
 # ------------------------------------------------------------------------------------------------
@@ -205,7 +207,86 @@ def gen_case(rng, big=False):
   if kind == 'ok' and sigs:
     for _ in range(rng.randint(0, 8)): accs_c.append(gen_access(rng, sigs))
     for _ in range(rng.randint(0, 5)): accs_p.append(gen_access(rng, sigs))
-  return {'desc': top, 'acc_construct': accs_c, 'acc_post': accs_p, 'kind': kind}
+  case = {'desc': top, 'acc_construct': accs_c, 'acc_post': accs_p, 'kind': kind, 'adds': [], 'acc_added': []}
+  if kind == 'ok':
+    case['adds'] = gen_adds(rng, top)
+    case['acc_added'] = gen_after_add_accesses(rng, case)
+  return case
+
+def static_nodes(top):
+  """[(tokens, node)] of the components / interfaces that get a name (generator bookkeeping)"""
+  out = []
+  def node(n, toks):
+    if n[0] not in ('comp', 'ifc'): return
+    out.append((toks, n))
+    seen = set()
+    for nm, sv in n[1]:
+      if nm in seen or nm.startswith('_'): continue
+      seen.add(nm); sval(sv, toks + [['a', nm]])
+  def sval(sv, toks):
+    if sv[0] == 'hole': return
+    if sv[0] == 'one': node(sv[1], toks)
+    else:
+      for i, x in enumerate(sv[1]): sval(x, toks + [['i', i]])
+  node(top, [])
+  return out
+
+def find_node(desc, toks):
+  """the node of the description named by the tokens (first binding of a name, as the real code keeps it)"""
+  cur = ['one', desc]
+  for t in toks:
+    if t[0] == 'a':
+      cur = next(sv for nm, sv in cur[1][1] if nm == t[1])
+    else:
+      cur = cur[1][t[1]]
+  return cur[1]
+
+def gen_adds(rng, desc):
+  """post-elaboration mutations: top.add_value_port(parent, name, port) with parents drawn from the components AND
+  interfaces at every depth (also inside lists), optionally followed by top.add_connection(port, wire of the host)"""
+  nodes = static_nodes(desc)
+  adds, used = [], {}
+  for _ in range(rng.choice([0, 1, 1, 2, 3])):
+    # interfaces and deep parents are the interesting ones: bias towards them
+    cand = [x for x in nodes if x[1][0] == 'ifc'] if rng.random() < 0.5 else nodes
+    if not cand: cand = nodes
+    toks, n = rng.choice(cand)
+    key = render(toks)
+    taken = used.setdefault(key, {nm.lstrip('_') for nm, _ in n[1]} | {'clk', 'reset', 'method'})
+    free = [x for x in NAMES + ['dbg', 'dbg_out', 'probe'] if x not in taken]
+    if not free: continue
+    nm = rng.choice(free); taken.add(nm)
+    kind = rng.choice(['in', 'out'])
+    # the host component along the name, and a Bits wire stored directly in it to connect to
+    k = len(toks)
+    while find_node(desc, toks[:k])[0] != 'comp': k -= 1
+    host = find_node(desc, toks[:k])
+    wires, seen = [], set()
+    for wn, sv in host[1]:
+      if wn in seen or wn.startswith('_'): continue
+      seen.add(wn)
+      if sv[0] == 'one' and sv[1][0] == 'sig' and sv[1][1] == 'wire' and sv[1][2][0] == 'bits': wires.append((wn, sv[1][2]))
+    conn = None
+    if wires and rng.random() < 0.6:
+      wn, ty = rng.choice(wires); conn = toks[:k] + [['a', wn]]
+    else:
+      ty = Gen(rng).ty()
+    adds.append({'parent': toks, 'name': nm, 'dir': kind, 'ty': ty, 'connect': conn})
+  return adds
+
+def apply_adds(desc, adds):
+  """add_value_port reuses the setattr hook: the mutated hierarchy is the description with the slot appended"""
+  d = json.loads(json.dumps(desc))
+  for a in adds:
+    find_node(d, a['parent'])[1].append([a['name'], ['one', ['sig', a['dir'], a['ty']]]])
+  return d
+
+def gen_after_add_accesses(rng, case):
+  out = []
+  for a in case['adds']:
+    if rng.random() < 0.5:
+      out.append(gen_access(rng, [(a['parent'] + [['a', a['name']]], a['ty'])]))
+  return out
 
 def walk_nodes(node, f):
   f(node)
@@ -376,6 +457,10 @@ def write_module(workdir, modname, case):
   em = Emitter(modname)
   top = em.cls(case['desc'], accesses=case['acc_construct'])
   em.lines.append(f'TOP = {top}')
+  ctors = [f"  lambda: {'InPort' if a['dir'] == 'in' else 'OutPort'}( {em.ty_expr(a['ty'])} )," for a in case.get('adds', [])]
+  em.lines.append('ADD_PORTS = [')
+  em.lines.extend(ctors)
+  em.lines.append(']')
   path = os.path.join(workdir, modname + '.py')
   with open(path, 'w') as f: f.write('\n'.join(em.lines) + '\n')
   return path
@@ -520,6 +605,21 @@ def run_real(ck, case, modname):
   res['post'] = post
   res['objs2'] = objs2
   res['recs2'] = {repr(o): real_rec(o) for o in objs2}
+  # post-elaboration mutation: add value ports to components / interfaces, connect some of them
+  if case.get('adds'):
+    added = []
+    for a, mk in zip(case['adds'], mod.ADD_PORTS):
+      parent = eval(render(a['parent']), {'s': top})
+      port = mk()
+      top.add_value_port(parent, a['name'], port)
+      if a['connect'] is not None:
+        top.add_connection(port, eval(render(a['connect']), {'s': top}))
+      added.append(port)
+    for e in case.get('acc_added', []): eval(render(e), {'s': top})
+    res['added'] = added
+    res['objs3f'] = top.get_all_object_filter(lambda x: True)
+    res['objs3'] = top._collect_all_single()
+    res['recs3'] = {repr(o): real_rec(o) for o in res['objs3']}
   return res
 
 def model_lines(case):
@@ -531,6 +631,9 @@ def model_lines(case):
     ls.append(leanio.line('hier', 'resolve', d, enc_toks(a)))
   for a in case.get('bad_exprs', []):
     ls.append(leanio.line('hier', 'resolve', d, enc_toks(a)))
+  if case.get('adds'):
+    d3 = enc_node(apply_adds(case['desc'], case['adds']))
+    ls.append(leanio.line('hier', 'elab', d3, [enc_toks(a) for a in case['acc_construct'] + case['acc_post'] + case.get('acc_added', [])]))
   return ls
 
 def gen_bad_exprs(rng, case):
@@ -577,7 +680,9 @@ def compare(ck, case, real, replies, verbose=False):
     return nd
   if replies[0].startswith('err'):
     dis('Model/Hier≈elaborate(error)', replies[0], 'elaborated without error'); return nd
-  for stage, key in ((0, 'recs1'), (1, 'recs2')):
+  nbad = len(case.get('bad_exprs', []))
+  stages = [(0, 'recs1'), (1, 'recs2')] + ([(len(replies) - 1, 'recs3')] if case.get('adds') else [])
+  for stage, key in stages:
     m = parse_recs(replies[stage]); r = real[key]
     if set(m) != set(r):
       dis(f'Model/Hier≈name set ({key})', sorted(set(m) - set(r))[:8], sorted(set(r) - set(m))[:8]); continue
@@ -593,7 +698,7 @@ def compare(ck, case, real, replies, verbose=False):
     o = eval(render(a), {'s': top})
     want = f'ok {o!r} 1'
     if rep != want: dis('Model/Hier resolve≈eval', rep, want)
-  for a, rep in zip(case.get('bad_exprs', []), replies[2 + len(exprs):]):
+  for a, rep in zip(case.get('bad_exprs', []), replies[2 + len(exprs):2 + len(exprs) + nbad]):
     try:
       o = eval(render(a), {'s': top}); got = f'ok {o!r}'
     except Exception as e:
@@ -652,6 +757,15 @@ def finish_case(ck, case, real, replies, verbose=False):
                    {'first': sorted(set(n1) - set(real['names2']))[:8], 'second': sorted(set(real['names2']) - set(n1))[:8],
                     'oracle': 'same construction code elaborated twice'}); ok = False
     ok &= check_expr_identity(ck, case, real)
+    if case.get('adds'):
+      ok &= oracle(ck, case, real['top'], real['objs3'], 'after add_value_port (all objects)')
+      ok &= oracle(ck, case, real['top'], real['objs3f'], 'after add_value_port (get_all_object_filter)')
+      for a, o in zip(case['adds'], real['added']):
+        want = render(a['parent'] + [['a', a['name']]])
+        if repr(o) != want or o not in real['objs3f'] or o not in real['objs3']:
+          ck.violation('added-port-misnamed-or-missing', {'kind': 'added-port-misnamed-or-missing'}, case,
+                       {'name': repr(o), 'expected': want, 'oracle': 'add_value_port(parent, name, o): repr(o) == repr(parent).name, o in the hierarchy'})
+          ok = False
   nd = compare(ck, case, real, replies, verbose)
   return ok, nd, real
 
